@@ -70,7 +70,10 @@ def gen_case(seed, profile=None):
         # KF-C07-dottedcircle-ensure_base), which makes later output depend on
         # history by that listed defect: keep it out of the sampled C08 steps
         fl = s.get("opts", {}).get("filters")
-        if fl and not history_free:
+        # ... and the filter parses the feature file without any include directory (open
+        # finding KF-C08-dottedcircle-include-dir): not combined with include() worlds
+        has_inc = bool(spec.get("include_files")) if isinstance(spec, dict) else False
+        if fl and (not history_free or has_inc):
             s["opts"]["filters"] = [d for d in fl if not (isinstance(d, dict) and d.get("cls") == "DottedCircleFilter")]
         if history_free:
             # long-lived option objects would carry history between the steps
